@@ -195,8 +195,24 @@ def runCmds (pol : Policy) : State → List Cmd → List String
     if ambiguous st.pool r.1.pool o && (opPrio o).isEmpty then ["nd"]
     else (showResult r.2 ++ ";" ++ showPool r.1.pool) :: runCmds pol r.1 rest
 
+/-- the state after all commands (choices as recorded; no `nd` handling: `par` lines have none) -/
+def finalState (pol : Policy) : State → List Cmd → State
+  | st, [] => st
+  | st, .op o :: rest => finalState pol (step pol st o).1 rest
+  | st, .search mk _ :: rest => finalState pol (step pol st (mk [])).1 rest
+  | st, _ :: rest => finalState pol st rest
+
 def handle : List String → String
   | ["conc", _, _, _, _] => "ok"   -- concurrency exploration: the Go side evaluates the invariants itself
+  | ["par", pol, ch, defs, ops] =>
+    -- concurrent callers over independent groups: the only admissible final state is the sequential one
+    match parsePolicy? pol, ch.splitOn ":", (splitList defs ";").mapM parseTx? with
+    | some pol, [cm, "g"], some defs =>
+      let opl := ((ops.splitOn "/").flatMap (fun g => splitList g ";")).filter (· != "")
+      match cm.toNat?, opl.mapM (parseOp? defs) with
+      | some cm, some cmds => showPool (finalState pol (State.init cm genesisTime) cmds).pool
+      | _, _ => "bad-op"
+    | _, _, _ => "bad-op"
   | ["run", pol, ch, defs, ops] =>
     match parsePolicy? pol, ch.splitOn ":", (splitList defs ";").mapM parseTx? with
     | some pol, [cm, mtp0], some defs =>
